@@ -141,19 +141,40 @@ impl TransportReader {
         &mut self,
         master_address: Option<EndpointAddress>,
     ) -> RequestGuard<'_> {
-        if let Some(TransportRequest::Request(info, _)) = self.peek_request() {
-            if let Some(required_master_addr) = master_address {
-                if info.addr.link != required_master_addr {
-                    tracing::warn!(
-                        "Discarding ASDU from master address: {} (configured address == {})",
-                        info.addr.link.raw_value(),
-                        required_master_addr.raw_value()
-                    );
-                    self.pop();
-                }
-            }
+        if self.should_discard(master_address) {
+            self.pop();
         }
         RequestGuard::new(self)
+    }
+
+    /// Fragments from a master other than the configured one are discarded whether
+    /// or not they parse as a request, and a malformed broadcast is dropped as well:
+    /// neither may be answered, not even with an error response.
+    fn should_discard(&mut self, master_address: Option<EndpointAddress>) -> bool {
+        let info = match self.inner.peek() {
+            Some(TransportData::Fragment(fragment)) => fragment.info,
+            _ => return false,
+        };
+
+        if let Some(required_master_addr) = master_address {
+            if info.addr.link != required_master_addr {
+                tracing::warn!(
+                    "Discarding ASDU from master address: {} (configured address == {})",
+                    info.addr.link.raw_value(),
+                    required_master_addr.raw_value()
+                );
+                return true;
+            }
+        }
+
+        if info.broadcast.is_some() {
+            if let Some(TransportRequest::Error(_, _)) = self.peek_request() {
+                tracing::warn!("Discarding malformed broadcast ASDU");
+                return true;
+            }
+        }
+
+        false
     }
 
     fn peek_request(&mut self) -> Option<TransportRequest<'_>> {
